@@ -11,6 +11,15 @@ TB = ("Trusted: Lean 4.33 kernel; axioms ⊆ {propext, Classical.choice, Quot.so
       "(constants/tables regenerated from /repo) and the differential correspondence stream; ")
 
 NOTES = {
+    "C02": {
+        "text": "Kernel-checked on every byte string: unpack / get_discriminators / get_bytes / typed get never panic; unpack succeeds iff the bytes are a run of well-formed entries ended by the end "
+                "of the buffer, < 8 trailing zero bytes or an all-zero tag (both directions); on such a buffer the listed types are the entries in order, and a (type, repetition) lookup returns exactly "
+                "the n-th entry's value range at its true offset (the bytes there are the value) or an error when there is none; a typed lookup succeeds iff the size matches. The three views share "
+                "one check in the source and one function in the model; that they stay identical is checked by the stream.",
+        "design_ref": "§5 C02",
+        "note": TB + "lookups are stated for non-zero type tags (the all-zero tag is the terminator); aligned Pod value types are outside the statement.",
+        "technique": "Lean 4 theorem (all byte strings, kernel-checked: totality, iff-characterisation of acceptance, exact lookup semantics) + differential correspondence with independent parser oracle",
+    },
     "C09": {
         "text": "Kernel-checked refinement: for every element size/alignment, prefix width, base address and capacity, each of push / remove / element write / stable sort / reopen on a buffer in the documented "
                 "layout (LE count, padding, elements back to back, stale tail) produces the vector's outcome and re-establishes the layout with the same capacity (lifted to all histories by induction, "
